@@ -125,6 +125,8 @@ def run_real(ctx, part, exe, runs, area, mon, scns, mon_env=None):
             if mode == "guided":
                 rep.drift += s["drift"]
                 rep.unguided += s["unguided"]
+            if mode == "probe":
+                continue      # schedules of a deliberately wrong design: the real code is expected to differ from them
             if s.get("first_drift"):
                 rep.note("%s/%s drift: %s" % (part, mode, s["first_drift"]))
             if s.get("obs_mismatch"):
@@ -132,7 +134,7 @@ def run_real(ctx, part, exe, runs, area, mon, scns, mon_env=None):
                          % (part, mode, s["obs_mismatch"], s.get("first_mismatch", "")[:400]))
         for d in deaths:
             unit = d["x"]
-            scn = scns[unit] if mode != "guided" and unit is not None and unit < len(scns) else None
+            scn = scns[unit] if mode not in ("guided", "probe") and unit is not None and unit < len(scns) else None
             what = "%s in %s/%s execution unit %s: %s %s" % (d["event"], part, mode, unit, d.get("asan", ""), d.get("frame", ""))
             rec = dict(engine=ENG, part=part, mode=mode, event=d["event"], unit=unit, asan=d.get("asan"), frame=d.get("frame"),
                        where=d.get("where"), access=d.get("access"), what=what, detail=d.get("stderr_tail", ""), scenario=scn)
@@ -208,7 +210,8 @@ def build_driver(ctx, which):
             _BUILT[which] = vlib.build(ctx, "pass_driver", ["engines/event/driver_pass.cpp"], std="c++20",
                                        lib=_COMMON + ["async_pass.cpp"])
         else:
-            _BUILT[which] = vlib.build(ctx, "auto_driver", ["engines/event/driver_auto.cpp"],
+            # NDEBUG: release behaviour (UNIFEX_ASSERT is assert(); a wrong outcome must reach the monitor, not abort)
+            _BUILT[which] = vlib.build(ctx, "auto_driver", ["engines/event/driver_auto.cpp"], defs=["NDEBUG"],
                                        lib=_COMMON + ["async_manual_reset_event_v1.cpp", "async_auto_reset_event.cpp"])
     return _BUILT[which]
 
@@ -283,20 +286,65 @@ def gen_auto(tier):
     add(0, [NX(1), NX(2)], [SET], [SET, SD])
     add(0, [NX(1), NX(2), NX(3)], [SET, SET, SET], [STOP(3)])
     add(0, [STOP(1)], [NX(1), NX(2)], [SET])
+    # two overlapping producers + a consumer with >= 2 next(): state_ / inner event atomicity under the mutex
+    add(0, [NX(1), NX(2)], [SET], [SET])
+    add(0, [NX(1), NX(2), NX(3)], [SET], [SET])
+    add(0, [NX(1), NX(2)], [SET, SET], [SET])
+    add(0, [NX(1), NX(2)], [SET], [SD])
+    add(1, [NX(1), NX(2)], [SET], [SET])
+    add(0, [NX(1), NX(2)], [SET], [STOP(1), SET])
     t1s = [[NX(1)], [NX(1), NX(2)], [NX(1), NX(2), NX(3)]]
     t2s = [[SET], [SET, SET], [SET, SD], [SD], [SET, SET, SET], [SD, SET]]
     t3s = [[STOP(1)], [STOP(2)], [SET], [], [SD], [STOP(2), SET], [SET, STOP(1)]]
     for init, t1, t2, t3 in itertools.product((0, 1), t1s, t2s, t3s):
         add(init, t1, t2, t3, sched=(1, 2, 1, 1))
-    return thin(out, 6, 18 if tier == "quick" else 100)
+    return thin(out, 12, 14 if tier == "quick" else 100)
 
 
 def part_auto(ctx):
+    rep = ctx.rep
     scns = gen_auto(ctx.tier)
-    sp, bp, nb = tlc_behaviours(ctx, "auto", "AutoResetEvent", scns, "AutoMon", 500 if ctx.quick else 6000)
+    sp, bp, nb = tlc_behaviours(ctx, "auto", "AutoResetEvent", scns, "AutoMon", 1500 if ctx.quick else 6000)
+    # ---- the seeded-bad design "event_.set() after the unlock" (Variant = "notify_outside"): TLC must refute it, and
+    # its behaviours give schedules that sit in the window between a section's unlock and what follows it ("probe"
+    # replays: on the real code they are ordinary executions, validated by the monitor; not counted as drift)
+    multi = [s for s in scns if sum(1 for p in s["prog"] for o in p if o[0] in ("set", "setdone", "stop")) >= 2
+             and any(o[0] == "next" for p in s["prog"] for o in p)][:12 if ctx.quick else 40]
+    sp2 = os.path.join(ctx.work, "scn_auto_bad.json")
+    json.dump(multi, open(sp2, "w"))
+    for inv in ("InnerConsistentWhenFree", "DoneOnlyAfterDoneRequest"):
+        r = vlib.model_check(ctx, "event", "AutoResetEventMC", cfg="AutoResetEventBad_%s.cfg" % inv,
+                             env={"SCENARIOS": sp2, "EDGES": os.path.join(ctx.work, "unused.ndjson")}, must_hold=False, timeout=900)
+        if r["kind"] != "invariant":
+            raise vlib.Broken("the seeded-bad variant of AutoResetEvent (notify outside the lock) is not refuted by %s (%s)"
+                              % (inv, r["kind"]))
+    rep.note("auto: TLC refutes the variant 'event_.set() after the unlock' (InnerConsistentWhenFree, DoneOnlyAfterDoneRequest)")
+    edges2 = os.path.join(ctx.work, "edges_auto_bad.ndjson")
+    rb = vlib.tlc(os.path.join(ctx.work, "tlc"), os.path.join(vlib.VERIF, "spec", "event"), "AutoResetEventMC",
+                  cfg="AutoResetEventBadExport.cfg", env={"SCENARIOS": sp2, "EDGES": edges2}, workers=1, timeout=1500)
+    if not rb["ok"]:
+        raise vlib.Broken("export of the bad variant's behaviours failed: " + rb["out"][-1500:])
+    adj, inits, _ = vlib.read_edges(edges2)
+    walks = vlib.edge_cover(adj, inits)
+    cap = 1500 if ctx.quick else 6000
+    if len(walks) > cap:
+        ctx.rng.shuffle(walks)
+        walks = walks[:cap]
+    bp2 = os.path.join(ctx.work, "beh_auto_probe.ndjson")
+    seen, np_ = set(), 0
+    with open(bp2, "w") as f:
+        for w in walks:
+            sched = [[e["th"], e["pc"]] for e in w if e["th"] != 0]
+            k = json.dumps([w[0]["scn"], sched])
+            if k in seen:
+                continue
+            seen.add(k)
+            f.write(json.dumps(dict(scn=w[0]["scn"], sched=sched, sig=sig_of([x for e in w for x in e["evs"]]))) + "\n")
+            np_ += 1
     exe = build_driver(ctx, "auto")
-    run_real(ctx, "auto", exe, std_runs(ctx, sp, bp, nb, len(scns), 30 if ctx.quick else 100, 12 if ctx.quick else 30),
-             "event", "AutoMon", scns)
+    runs = std_runs(ctx, sp, bp, nb, len(scns), 30 if ctx.quick else 100, 12 if ctx.quick else 30)
+    runs.insert(1, ("probe", ["--mode", "guided", "--scenarios", sp, "--behaviours", bp2], np_))
+    run_real(ctx, "auto", exe, runs, "event", "AutoMon", scns)
 
 
 def tlc_behaviours(ctx, part, module, scns, mon, max_guided):
